@@ -141,6 +141,13 @@ func (r *runner) mainConc() {
 }
 
 func (r *runner) clientConc(ci int, ops []Op) {
+	if r.c.Slow != nil {
+		for _, s := range r.c.Slow {
+			if s == ci {
+				simrt.Starve(true)
+			}
+		}
+	}
 	for i := range ops {
 		if len(r.out.Viol) > 0 {
 			return
@@ -182,6 +189,9 @@ func (r *runner) clientConc(ci int, ops []Op) {
 				}
 			}
 			r.end(h)
+			if err == nil && r.c.Prop == "C10" && !r.isLarge(h) {
+				r.checkLogged(ci, h)
+			}
 		case "get":
 			h := r.begin(ci, "get")
 			h.key = string(op.Key)
@@ -332,6 +342,70 @@ func (r *runner) clientConc(ci int, ops []Op) {
 		case "yield":
 			simrt.Yield("harness.yield")
 		}
+	}
+}
+
+// checkLogged: at the moment a (journaled) write is acknowledged, its group
+// has been logged - every value of it is in some journal, live or already
+// retired by a flush.
+func (r *runner) checkLogged(ci int, h *hop) {
+	for _, rc := range h.recs {
+		if rc.Del {
+			continue
+		}
+		needle := []byte(fmt.Sprintf("v%08x.", rc.Val.ID))
+		found := false
+		for _, fd := range r.disk.ListFiles(storage.TypeJournal) {
+			if data, ok := r.disk.Data(fd); ok && bytes.Contains(data, needle) {
+				found = true
+				break
+			}
+		}
+		if !found {
+			for _, data := range r.cs.journals {
+				if bytes.Contains(data, needle) {
+					found = true
+					break
+				}
+			}
+		}
+		if !found {
+			// the value may straddle a block boundary of the journal framing:
+			// look into the reassembled records
+			search := func(data []byte) bool {
+				recs, _, _ := decode.Journal(data)
+				for _, jr := range recs {
+					if bytes.Contains(jr.Data, needle) {
+						return true
+					}
+				}
+				return false
+			}
+			for _, fd := range r.disk.ListFiles(storage.TypeJournal) {
+				if data, ok := r.disk.Data(fd); ok && search(data) {
+					found = true
+					break
+				}
+			}
+			if !found {
+				var nums []int64
+				for n := range r.cs.journals {
+					nums = append(nums, n)
+				}
+				sort.Slice(nums, func(i, j int) bool { return nums[i] < nums[j] })
+				for _, n := range nums {
+					if search(r.cs.journals[n]) {
+						found = true
+						break
+					}
+				}
+			}
+		}
+		if !found {
+			r.viol("wgroup", "wgroup:ack-before-log", fmt.Sprintf("client %d: write of %q (value id %d) was acknowledged but its group has not been logged: it is in no journal", ci, []byte(rc.Key), rc.Val.ID))
+			return
+		}
+		r.probe("ack-logged")
 	}
 }
 
@@ -794,13 +868,29 @@ func genConc(prop string, seed uint64, g *gen, thorough bool) *Case {
 	if prop == "C10" && r.p(0.3) {
 		closer = r.intn(nc)
 	}
+	storm := prop == "C10" && r.p(0.35)
+	if storm {
+		// many small-buffer writers: merges and overflow hand-offs all the time
+		nc = r.rng(4, 8)
+		total = r.rng(24, 80)
+		c.Knobs.WriteBuffer = r.pick(512, 1024, 2048, 4096)
+		c.Knobs.NoWriteMerge = false
+		g.wb = c.Knobs.WriteBuffer
+	}
+	if r.p(0.4) {
+		// slow nodes: one or two clients are scheduled only rarely
+		c.Slow = append(c.Slow, r.intn(nc))
+		if r.p(0.3) {
+			c.Slow = append(c.Slow, r.intn(nc))
+		}
+	}
 	for ci := 0; ci < nc; ci++ {
 		var ops []Op
 		n := total/nc + r.intn(3)
 		role := r.intn(3) // 0 writer, 1 reader, 2 mixed
 		if prop == "C10" {
 			role = 0
-			if r.p(0.2) {
+			if r.p(0.2) && !storm {
 				role = 2
 			}
 		}
@@ -845,6 +935,12 @@ func genConc(prop string, seed uint64, g *gen, thorough bool) *Case {
 					}
 				}
 				ops = append(ops, w)
+				// read your own write right after it was acknowledged
+				if prop == "C10" && r.p(0.5) || r.p(0.15) {
+					if recs := opRecs(&w); len(recs) > 0 {
+						ops = append(ops, Op{K: "get", Key: recs[len(recs)-1].Key})
+					}
+				}
 			case x < 70:
 				ops = append(ops, Op{K: "get", Key: g.key()})
 			case x < 85:
